@@ -42,3 +42,8 @@ Definition steps_check (c : float * float * list float * list float * (Z * float
   let '(fluss0, regen, w, wg0, (n, wdt)) := c in
   let '(k, wd) := steps_of (wdt_of (zsr_of fluss0 regen w wg0)) in
   ((if Z.eqb k n then 0 else 1) + (if float_same wd wdt then 0 else 2))%nat.
+
+(* setFieldCapacityWithGW: (GRW, W, PORGES) -> W' *)
+Definition gwfc_check (c : float * list float * list float * list float) : nat :=
+  let '(grw, w, porges, w') := c in
+  if floats_same (set_fc_gw grw w porges) w' then 0%nat else 1%nat.
